@@ -41,6 +41,9 @@ VARIANTS = {
     "sse41": (["--profile", "dev"], "-C target-feature=+sse4.1", [], "debug"),
     "avx": (["--profile", "dev"], "-C target-feature=+sse4.1,+avx", [], "debug"),
     "avx2": (["--profile", "dev"], "-C target-feature=+sse4.1,+avx,+avx2", [], "debug"),
+    # the optimised build of the widest feature set: the code a user's `--release` build with AVX2 executes (inlining, vector
+    # code generation and alignment assumptions of opt-level 3 differ from the dev profile the other SIMD variants use)
+    "avx2rel": (["--release"], "-C target-feature=+sse4.1,+avx,+avx2", [], "release"),
     "force32": (["--profile", "dev"], "", ["force-32bits"], "debug"),
 }
 
